@@ -892,19 +892,37 @@ func (r *run) finalChecks(ctx context.Context) {
 			r.failf("decode-timestamp", "entry %d carries timestamp %d, SCT says %d", idx, le.Leaf.TimestampedEntry.Timestamp, is.sct.Timestamp)
 		}
 		// the stored chain is the validated path: the submitted certificates unchanged and in order, plus the
-		// root when it was omitted
-		if len(le.Chain) != len(is.built.Full)-1 {
-			r.failf("decode-chain", "entry %d: chain of %d, want %d", idx, len(le.Chain), len(is.built.Full)-1)
-		} else {
+		// root when it was omitted. One certificate may have been submitted through several valid chains (a
+		// deterministic signature scheme yields the same leaf under a root and under that root's twin): the log
+		// keeps the entry of the first submission, so the chain of any submission of this certificate is accepted.
+		var why string
+		matched := false
+		for _, other := range r.issued {
+			if !bytes.Equal(other.built.Leaf.DER, is.built.Leaf.DER) {
+				continue
+			}
+			if len(le.Chain) != len(other.built.Full)-1 {
+				why = fmt.Sprintf("chain of %d, want %d", len(le.Chain), len(other.built.Full)-1)
+				continue
+			}
+			ok := true
 			for j := range le.Chain {
-				want := is.built.Full[j+1]
-				if j+1 < len(is.chain) {
-					want = is.chain[j+1].Data // what was actually submitted at that position
+				want := other.built.Full[j+1]
+				if j+1 < len(other.chain) {
+					want = other.chain[j+1].Data // what was actually submitted at that position
 				}
 				if !bytes.Equal(le.Chain[j].Data, want) {
-					r.failf("decode-chain", "entry %d: stored chain element %d differs from the submitted certificate", idx, j)
+					ok = false
+					why = fmt.Sprintf("stored chain element %d differs from the submitted certificate", j)
 				}
 			}
+			if ok {
+				matched = true
+				break
+			}
+		}
+		if !matched {
+			r.failf("decode-chain", "entry %d: %s", idx, why)
 		}
 	}
 	if found > 0 {
